@@ -426,6 +426,8 @@ def parse_opts(words):
             opts["detuple"] = True
         elif w == "namewild":
             opts["namewild"] = True
+        elif w == "noterm":
+            opts["noterm"] = True
         elif w.startswith("generics="):
             opts["generics"] = w[9:].replace(":", ": ").replace(",", ", ")
         else:
@@ -642,6 +644,11 @@ def generate(template_path, twin=False):
         nb.append(body[last:])
         new_body = "".join(nb)
         text = sig_named + "\n" + wrap(contract + "\n") + new_body
+        if kind == "prove" and opts.get("noterm"):
+            # termination of this function is not checked (a verifier attribute, no code change);
+            # reported in the unit's assumptions
+            text = wrap("#[verifier::exec_allows_no_decreases_clause]\n") + text
+            report.setdefault("termination_unchecked", []).append(item)
         out.append("// ---- proved verbatim: %s %s:%d" % (item, rel, line_no))
         if twin_contract is None:
             out.append("//@@begin %s %s" % (rel, item))
@@ -652,12 +659,12 @@ def generate(template_path, twin=False):
             cur_name = opts.get("rename") or item.split("::")[-1]
             tsig = re.sub(r"\bfn\s+((?:%s)?)%s\b" % (re.escape(wrap("")), re.escape(cur_name)), "fn " + cur_name + "__vxtwin", sig_named, count=1)
             out.append("//@@begin %s %s" % (rel, item))
-            out.append(tsig + "\n" + wrap(twin_contract + "\n") + new_body)
+            out.append((wrap("#[verifier::exec_allows_no_decreases_clause]\n") if opts.get("noterm") else "") + tsig + "\n" + wrap(twin_contract + "\n") + new_body)
             out.append("//@@end")
         report["items"].append({"file": rel, "item": item, "role": "prove", "line": line_no,
                                 "body_sha256": hashlib.sha256(orig_text.encode()).hexdigest(),
                                 "loc": body.count("\n") + 1, "rename": opts.get("rename"),
-                                "rewrites": rewrites, "opts": {k: opts[k] for k in ("selfas", "untuple", "detuple", "namewild") if k in opts},
+                                "rewrites": rewrites, "opts": {k: opts[k] for k in ("selfas", "untuple", "detuple", "namewild", "noterm") if k in opts},
                                 "contract": contract.strip()})
     gen = "\n".join(out)
     report["dropped"] = [
